@@ -33,6 +33,7 @@ type mgmtState struct {
 	stale      map[string][]*server.Dataset // handles of deleted datasets, by the name they had
 	everNames  map[string]bool
 	pubNS      map[string]bool // dataset name -> created with a publicNamespaces setting
+	kind       map[string]string // dataset name -> "", "pubns", "proxy", "virtual" as configured at creation
 	sharedHit  bool
 }
 
@@ -99,9 +100,16 @@ func genMgmtCase(r *rand.Rand) SDCase {
 			}
 			live[nm] = true
 			op := SDOp{Kind: "create", DS: nm}
-			if r.Intn(3) == 0 {
+			switch r.Intn(6) {
+			case 0, 1:
 				op.To = "pubns" // created with a publicNamespaces setting
 				tags["public-namespaces"] = true
+			case 2:
+				op.To = "proxy" // created as a proxy dataset
+				tags["proxy-dataset"] = true
+			case 3:
+				op.To = "virtual" // created as a virtual dataset
+				tags["virtual-dataset"] = true
 			}
 			c.Ops = append(c.Ops, op)
 		case k < 78 && len(ll) > 0:
@@ -238,8 +246,13 @@ func (s *sdRun) applyMgmt(op SDOp) error {
 	switch op.Kind {
 	case "create":
 		var cfg *server.CreateDatasetConfig
-		if op.To == "pubns" {
+		switch op.To {
+		case "pubns":
 			cfg = &server.CreateDatasetConfig{PublicNamespaces: []string{gen.NsA, gen.NsP}}
+		case "proxy":
+			cfg = &server.CreateDatasetConfig{ProxyDatasetConfig: &server.ProxyDatasetConfig{RemoteURL: "http://localhost:1/datasets/" + op.DS, AuthProviderName: "none", TimeoutSeconds: 3}}
+		case "virtual":
+			cfg = &server.CreateDatasetConfig{VirtualDatasetConfig: &server.VirtualDatasetConfig{Transform: "ZnVuY3Rpb24gYnVpbGRfZW50aXRpZXMoKSB7fQ=="}}
 		}
 		if _, err := s.core.Dsm.CreateDataset(op.DS, cfg); err != nil {
 			return err
@@ -250,6 +263,10 @@ func (s *sdRun) applyMgmt(op SDOp) error {
 			s.mg.pubNS = map[string]bool{}
 		}
 		s.mg.pubNS[op.DS] = op.To == "pubns"
+		if s.mg.kind == nil {
+			s.mg.kind = map[string]string{}
+		}
+		s.mg.kind[op.DS] = op.To
 	case "stalewrite":
 		hs := s.mg.stale[op.DS]
 		if len(hs) == 0 {
@@ -293,6 +310,10 @@ func (s *sdRun) applyMgmt(op SDOp) error {
 		if s.mg.pubNS != nil {
 			s.mg.pubNS[op.To] = s.mg.pubNS[op.DS]
 			delete(s.mg.pubNS, op.DS)
+		}
+		if s.mg.kind != nil {
+			s.mg.kind[op.To] = s.mg.kind[op.DS]
+			delete(s.mg.kind, op.DS)
 		}
 		s.rec[op.To] = s.rec[op.DS]
 		delete(s.rec, op.DS)
@@ -582,6 +603,20 @@ func (s *sdRun) checkC19() {
 		}
 		if d := s.core.Dsm.GetDataset(n); d != nil && s.mg.pubNS != nil && (len(d.PublicNamespaces) > 0) != s.mg.pubNS[n] {
 			s.viol("C19", "dataset-settings", fmt.Sprintf("dataset %s: publicNamespaces setting configured=%v, dataset carries %v", n, s.mg.pubNS[n], d.PublicNamespaces), s.mg.pubNS[n], d.PublicNamespaces)
+		}
+		if k, known := s.mg.kind[n]; known {
+			d := s.core.Dsm.GetDataset(n)
+			_, metaProxy := m.Props[ns+"remoteUrl"]
+			_, metaVirtual := m.Props[ns+"transform"]
+			dsProxy := d != nil && d.ProxyConfig != nil && d.ProxyConfig.RemoteURL != ""
+			dsVirtual := d != nil && d.VirtualDatasetConfig != nil && d.VirtualDatasetConfig.Transform != ""
+			if metaProxy != (k == "proxy") || metaVirtual != (k == "virtual") {
+				s.viol("C19", "meta-entity-settings", fmt.Sprintf("dataset %s was created as %q; its meta-entity says proxy=%v virtual=%v", n, k, metaProxy, metaVirtual), k, fmt.Sprintf("proxy=%v virtual=%v", metaProxy, metaVirtual))
+			}
+			if dsProxy != (k == "proxy") || dsVirtual != (k == "virtual") {
+				s.viol("C19", "dataset-settings", fmt.Sprintf("dataset %s was created as %q; the dataset itself says proxy=%v virtual=%v (its meta-entity: proxy=%v virtual=%v)", n, k, dsProxy, dsVirtual, metaProxy, metaVirtual), k, fmt.Sprintf("proxy=%v virtual=%v", dsProxy, dsVirtual))
+			}
+			s.ctx.Out.Stat("c19_settings_compared", 1)
 		}
 		items, _ := m.Props[ns+"items"].(float64)
 		want := len(s.m.Live(n).Ids)
